@@ -1,16 +1,20 @@
 #!/bin/bash
-# usage: seed_eval.sh <Cxx> <A|B> <demo package dir relative to repo root, or .> [check ids...]
+# usage: [WT=<worktree>] seed_eval.sh <Cxx> <A|B> <demo package dir relative to repo root, or .> [check ids...]
 # Confirms a seeded change in its scratch worktree (suite passes with it, demo fails with it, demo
 # passes without it), then runs the given checks (default: the property's own) against the
 # worktree with the change applied, and stores the artefacts under /verif/seeded/<Cxx>-<X>/.
 set -u
 pid=$1; x=$2; ddir=$3; shift 3
 checks=${@:-$pid}
-wt=/tmp/vp-seed-$pid
+wt=${WT:-/tmp/vp-seed-$pid}
 out=/verif/seeded/$pid-$x
 export GOFLAGS=-mod=mod GOPROXY=off GOSUMDB=off GOTOOLCHAIN=local
 cd $wt || exit 2
 git checkout -q -- . && git clean -fdq -e _seed
+# round-2 agents deliver _seed/patch.diff, demo_test.go, notes.md: give them the <X>-prefixed names
+[ -f _seed/$x.diff ] || cp _seed/patch.diff _seed/$x.diff
+[ -f _seed/${x}_demo_test.go ] || cp _seed/demo_test.go _seed/${x}_demo_test.go
+[ -f _seed/$x.md ] || cp _seed/notes.md _seed/$x.md 2>/dev/null
 mkdir -p $out
 cp _seed/$x.diff $out/patch.diff
 cp _seed/${x}_demo_test.go $out/demo_test.go
